@@ -79,6 +79,10 @@ func c16Gen(rng *rand.Rand, conf string, idx int) any {
 			if rng.Intn(3) == 0 {
 				// the runtime dies while the plugin is writing a reply to it: a partial write on the plugin's side
 				w.Ops = append(w.Ops, C16Op{"lose-midwrite"}, C16Op{"settle"})
+			} else if rng.Intn(3) == 0 {
+				// no pause: the plugin waits for the end of the lost session and starts again at once
+				w.Ops = append(w.Ops, C16Op{"lose"}, C16Op{"wait"})
+				continue
 			} else {
 				w.Ops = append(w.Ops, C16Op{"lose"}, C16Op{"settle"})
 			}
